@@ -46,6 +46,8 @@ struct Ledger {
     events: BTreeMap<u64, (usize, u16, usize)>,
     discarded: BTreeSet<u64>,
     commands: u64,
+    /// every command the outstation application executed: (type, index, value)
+    executed: Vec<(usize, u16, f64)>,
 }
 
 type Shared = Arc<Mutex<Ledger>>;
@@ -141,6 +143,7 @@ impl Controls {
         db.transaction(|db| {
             let mut g = led.lock().unwrap_or_else(|e| e.into_inner());
             g.commands += 1;
+            g.executed.push((t, index, value));
             write_point(db, &mut g, rng, t, index, Some(value), false);
         });
         CommandStatus::Success
@@ -455,6 +458,8 @@ async fn scenario(a: &ShardArgs, idx: u64) {
     let chunk0 = ctl.lock().unwrap().chunk;
     let mut hist: Vec<String> = vec![format!("unsol={unsol} small={small} mode={mode:?} evbuf={evbuf} periodic={periodic} static_only={static_only} chunk={chunk0} busy={busy_ms}ms")];
     let mut cmd_results: Vec<String> = vec![];
+    let mut cmd_serial = 0u64;
+    let mut issued: Vec<(u16, f64, bool)> = vec![];
     while (t_stim.elapsed().as_millis() as u64) < busy_ms {
         match r.below(6) {
             0 => {
@@ -473,10 +478,14 @@ async fn scenario(a: &ShardArgs, idx: u64) {
             }
             2 => {
                 let i = r.below(NPOINTS as u64) as u16;
-                let v = (r.below(2000) as f64) - 1000.0;
+                // a value no other command of this scenario uses: executions can be attributed
+                cmd_serial += 1;
+                let v = 5_000_000.0 + cmd_serial as f64;
                 let hdr = CommandBuilder::single_header_u16(Group41Var4::new(v), i);
-                let res = tokio::time::timeout(Duration::from_secs(5), assoc.operate(CommandMode::DirectOperate, hdr)).await;
-                hist.push(format!("+{}ms analog output index {i} = {v} -> {res:?}", t_stim.elapsed().as_millis()));
+                let mode = if r.bool() { CommandMode::SelectBeforeOperate } else { CommandMode::DirectOperate };
+                let res = tokio::time::timeout(Duration::from_secs(5), assoc.operate(mode, hdr)).await;
+                hist.push(format!("+{}ms analog output index {i} = {v} ({mode:?}) -> {res:?}", t_stim.elapsed().as_millis()));
+                issued.push((i, v, matches!(res, Ok(Ok(())))));
             }
             3 => {
                 ctl.lock().unwrap().chunk = r.below(4) as u8;
@@ -592,6 +601,17 @@ async fn scenario(a: &ShardArgs, idx: u64) {
                         out::count("records_match_history", 1);
                     }
                 }
+            }
+        }
+        // commands: reported success means executed exactly once; nothing is ever executed twice
+        for (i, v, ok) in &issued {
+            let n = g.executed.iter().filter(|e| e.0 == 6 && e.1 == *i && e.2 == *v).count();
+            if n > 1 {
+                violations.push(("command_executed_twice".into(), "analog-output".into(), format!("analog output {v} for index {i} was executed {n} times")));
+            } else if *ok && n != 1 {
+                violations.push(("command_success_without_execution".into(), "analog-output".into(), format!("operate() returned Ok for analog output {v} index {i} but the outstation executed it {n} times")));
+            } else {
+                out::count(if *ok { "commands_ok_executed_once" } else { "commands_failed_executed_at_most_once" }, 1);
             }
         }
         if !converged {
